@@ -757,6 +757,9 @@ class Runner:
                         return
                 except Exception:
                     pass
+            if 'wall-clock' in (pr.detail or '') and getattr(pr, 'first_attempt', False):
+                res.paths -= 1
+                return 'retry'
             res.budget += 1
             return
         A, exc = pr.value
